@@ -341,6 +341,12 @@ int sched_end() {
 
 bool sched_active() { return g_active; }
 
+// In a forked child only the calling thread exists: leave managed mode for good.
+void sched_detach_child() {
+  g_active = false;
+  t_self = nullptr;
+}
+
 void sched_quiesce() {
   if (!managed()) return;
   Th *self = t_self;
